@@ -19,10 +19,14 @@ THEOREMS = [
     "Ural.Props.C03.normalize_port_scheme_blind",
     "Ural.Props.C03.normalize_host_factors",
     "Ural.Props.C03.normalize_query_factors",
-    # B-THEOREMS
+    "Ural.Props.C03.fingerprint_second_pass",
+    "Ural.Props.C03.fingerprint_filter_absorbs",
+    "Ural.Props.C03.fingerprint_inner_call_of_sortHyp",
+    "Ural.Props.C03.fingerprint_of_normalize_eq_partial_of_sortHyp",
+    "Ural.Props.C03.fingerprint_canonicalize_partial_of_hyps",
+    "Ural.Props.C03.not_fullFingerprintOfNormalizeEq",
 ]
 TABLE_OBLIGATIONS = [
-    # B-OBLIGATIONS
     "Ural.Props.C03.tables_unsafe_sets",
 ]
 RULE = (
@@ -42,8 +46,8 @@ RULE = (
     "the base as a string; distinct = distinct (members, options)."
 )
 EXHAUSTIVE = {
-    "quick": "every single transformation (fixed seeds) on every URL of the structure sweep, under the defaults; the 8 option combinations on the corpus",
-    "thorough": "the same, plus every single transformation on the length-1 component sweep",
+    "quick": "every URL of the structure sweep (2343 shapes) and of the length-1 component sweep, each with one spelling transformation and one irrelevant variation, rotating through all 21 (fixed seeds), defaults; the 8 option combinations on the corpus",
+    "thorough": "every single transformation on every URL of the structure sweep and of the length-1 component sweep",
 }
 TRUSTED = [
     "CPython urlsplit + SplitResult accessors (run, not modelled): in particular that re-parsing the printed canonical URL gives its components back (evaluated per case by the driver line c03_bridge: Reparses(canonComps(parse u), parse(canonicalize_url(u)))) and that the parse of u.lower() is the component-wise lower-casing of the parse of u (line c03_lower)",
@@ -58,19 +62,19 @@ ASSUMPTIONS = [
     "the statement does not claim fp(norm(u)) == fp(u) and it is not tested (normalize_url is not idempotent on index / AMP tails)",
 ]
 UNPROVED = (
-    "PARTIAL. (a),(c1) are proved on parsed components (normParts of any re-parse of canonComps(p) = normParts p) "
-    "for quoted=False, platform_aware=False, no redirect hint (the theorem is about what follows parsing), "
-    "under PathHyp (three normpath facts, proved separately in Lemmas/Normpath.lean) and with two explicit "
-    "excluded regions that really fail on the implementation: an '&amp;' hidden behind an escape "
-    "(MistakeStable, KF-C03-3) and a punycode hostname that ends like a filtered domain (DomainStable, KF-C03-4). "
-    "(b) is proved for URLs on which lower-casing commutes with each case-sensitive step (CaseStable: explicit, "
-    "decidable; it fails for an escaped capital, KF-C03-5, and for a mixed-case index file, KF-C03-6) and under "
-    "SortHyp (the query sort depends only on the multiset); with CaseStable discharged for lower-case URLs. "
-    "(c2) follows from (c1)+(b) under the union of the hypotheses. NOT proved, explored by the oracle on every run: "
-    "quoted=True (fails on the KF-C02-1 family: KF-C03-8), platform_aware=True (D53: KF-C03-2), URLs with a "
-    "redirect hint (D29: KF-C03-1), the string-level bridging (cleaning + CPython parse/print; fails when an "
-    "escape decodes to Unicode whitespace at an end of the URL: KF-C03-7), equality of the printed strings vs "
-    "equality of the components."
+    "PARTIAL. (a),(c1) are proved on parsed components (normParts of ANY re-parse of canonComps(p) = normParts p, whatever "
+    "default protocol canonicalisation assumed) for quoted=False and paths that are empty or absolute, under PathHyp "
+    "(three normpath facts proved separately in Lemmas/Normpath.lean) and PunyLaws; platform_aware and the redirect "
+    "step act on the string before parsing and are outside the theorems. (b) is proved, under SortHyp (the query sort "
+    "depends only on the multiset of items: C04's permutation lemma), for the class LowerInput (the URL as parsed, and "
+    "what its escapes decode to, are lower-case), where fingerprint_url's inner call is normalize_url's result with the "
+    "query passed through the gl/hl filter; the full statement is REFUTED on the model (not_fullFingerprintOfNormalizeEq: "
+    "'/Index.html' vs '/Index.html/index.html', replayed on the implementation as KF-C03-3). (c2) = (c1)+(b) under the "
+    "union of the hypotheses. NOT proved, explored by the oracle on every run: (b),(c2) on URLs with capital letters "
+    "(that normalize_url's steps other than the index test commute with lower-casing), quoted=True (fails on the "
+    "KF-C02-1 family: KF-C03-4), platform_aware=True (D53: KF-C03-2), URLs with a redirect hint (D29: KF-C03-1), the "
+    "string-level bridging (cleaning + CPython parse/print: evaluated per case by c03_bridge / c03_lower), equality of "
+    "the printed strings vs equality of the components."
 )
 
 # ---------------------------------------------------------------------------------------
@@ -205,7 +209,7 @@ CORPUS = [
     ["facebook.com/../a", "facebook.com/a"],
     ["https://www.facebook.com/x/../permalink.php?story_fbid=1&id=2"],
     ["https://www.youtube.com/x/../watch?v=abcdefghijk&t=1"],
-    # genuine defects found by this property (known findings until /repo is fixed)
+    # genuine defects found by this property: 5606787, 2bbc628, e39f899, 5de5f5e + 8d2b290 (fixed), KF-C03-3, KF-C03-4
     ["a.com?x=1&a%6Dp;y=2", "a.com?x=1&amp;y=2"],
     ["http://xn--bbfacebook.com/?_rdr=1&x=1"],
     ["a.com?ref=%46B", "a.com?ref=FB"],
@@ -225,20 +229,19 @@ def cases(rng, tier):
     for urls in CORPUS:
         for o in OPTS:
             yield _mk(urls=urls, o=o)
+    c02 = sorted(urlgen.C02_TRANSFORMS)
+    nts = sorted(N_TRANSFORMS)
     k = 0
-    for p in urlgen.structure_sweep():
+    for p in list(urlgen.structure_sweep()) + list(urlgen.component_sweep(1)):
+        k += 1
         if "raw" in p:
             yield _mk(parts=p, o=OPTS[k % 8])
-            k += 1
-            continue
-        for t in TN:
-            k += 1
-            yield _mk(parts=p, recipes=[[t]], tseed=k, o=(False, False, False))
-    if tier == "thorough":
-        for p in urlgen.component_sweep(1):
+        elif tier == "thorough":
             for t in TN:
                 k += 1
-                yield _mk(parts=p, recipes=[[t]], tseed=k, o=OPTS[k % 8])
+                yield _mk(parts=p, recipes=[[t]], tseed=k, o=OPTS[0] if k % 3 else OPTS[k % 8])
+        else:
+            yield _mk(parts=p, recipes=[[c02[k % len(c02)]], [nts[k % len(nts)]]], tseed=k, o=OPTS[0])
     n = 2600 if tier == "quick" else 40000
     for i in range(n):
         p = nc.random_norm_parts(rng) if i % 3 else urlgen.random_parts(rng)
@@ -448,86 +451,8 @@ def kf_platform_aware(case, failure):
     return not [f for f in failures(c) if _tail(f)["rel"] == t["rel"]]
 
 
-def mistake_stable(query):
-    """Python twin of Ural.C03.MistakeStable"""
-    from ural.quote import safely_unquote_qsl
-    from ural.utils import fix_common_query_mistakes, safe_qsl_iter, safe_serialize_qsl
-
-    def canonq(x):
-        return safe_serialize_qsl(safely_unquote_qsl(safe_qsl_iter(x)))
-
-    return fix_common_query_mistakes(canonq(query)) == canonq(fix_common_query_mistakes(query))
-
-
-def domain_stable(hostname):
-    """Python twin of Ural.C03.DomainStable"""
-    from ural.normalize_url import PER_DOMAIN_QUERY_FILTERS
-    from ural.utils import decode_punycode_hostname
-
-    def pick(h):
-        if not h:
-            return None
-        return next((d for d, _ in PER_DOMAIN_QUERY_FILTERS if h.endswith(d)), None)
-
-    if hostname is None:
-        return True
-    return pick(decode_punycode_hostname(hostname).lower()) == pick(hostname)
-
-
-def _parses(s, pa=False):
-    for x in s:
-        p, _ = _norm_parse(x, pa)
-        if p is not None:
-            yield p
-
-
-def kf_mistake_escaped(case, failure):
-    """KF-C03-3 (genuine defect, notes/fixes/c03-query-mistakes-after-unescaping.diff):
-    fix_common_query_mistakes runs on the still-escaped query: an '&amp;' spelled with an escape
-    ('&a%6Dp;') is repaired only in the canonical form."""
-    t = _tail(failure)
-    return t["rel"] in ("a", "c1", "c2", "b") and any(not mistake_stable(p["query"]) for p in _parses(_involved(t), t["pa"]))
-
-
-def kf_domain_punycode(case, failure):
-    """KF-C03-4 (genuine defect, notes/fixes/c03-domain-filter-on-decoded-hostname.diff): the
-    per-domain query filter is chosen with endswith() on the still-encoded hostname."""
-    t = _tail(failure)
-    return t["rel"] in ("a", "c1", "c2", "b") and any(not domain_stable(p["hostname"]) for p in _parses(_involved(t), t["pa"]))
-
-
-def _texts(p):
-    from ural.quote import safely_unquote_fragment, safely_unquote_path, safely_unquote_query_item
-    from ural.utils import safe_qsl_iter
-
-    yield safely_unquote_path, p["path"]
-    yield safely_unquote_fragment, p["fragment"]
-    if p["query"]:
-        for k, v in safe_qsl_iter(p["query"]):
-            yield safely_unquote_query_item, k
-            if v is not None:
-                yield safely_unquote_query_item, v
-
-
-def escaped_case(p):
-    """an escape of a text component decodes to a character that lower() changes"""
-    return any(unq(t.lower()) != unq(t).lower() for unq, t in _texts(p))
-
-
-def kf_escaped_upper(case, failure):
-    """KF-C03-5 (genuine defect, notes/fixes/c03-fingerprint-lowercases-after-unescaping.diff):
-    fingerprint_url lower-cases the string BEFORE normalize_url unescapes it, so an escaped capital
-    ('%41', '%C3%89') reaches the case-sensitive steps (value filters, index test, sort) as a
-    capital."""
-    t = _tail(failure)
-    if t["rel"] not in ("b", "c2"):
-        return False
-    s = [t["u"]] + ([t["v"]] if t["v"] is not None else [])
-    return any(escaped_case(p) for p in _parses(s, t["pa"]))
-
-
 def kf_index_case(case, failure):
-    """KF-C03-6 (design; the test-suite pins normalize_url('LEMONDE.FR/INDEX.HTML') keeping the
+    """KF-C03-3 (design; the test-suite pins normalize_url('LEMONDE.FR/INDEX.HTML') keeping the
     file): the index test is case-sensitive in normalize_url and index stripping is not
     idempotent, so the common normalized form of the pair still ends with a case variant of an
     index file ('/Index.html' from '/Index.html' and from '/Index.html/index.html'), which
@@ -547,26 +472,8 @@ def kf_index_case(case, failure):
     return root.lower() in ("index", "default") and root not in ("index", "default")
 
 
-def kf_unicode_space(case, failure):
-    """KF-C03-7 (genuine defect of the safe unquoters, notes/fixes/c03-unicode-whitespace-stays-escaped.diff):
-    an escape decoding to non-ASCII whitespace (U+00A0, U+2003, U+3000 …) at an end of the URL
-    becomes raw whitespace in the canonical form, which the next cleaning pass strips."""
-    from ural import canonicalize_url
-
-    t = _tail(failure)
-    if t["rel"] not in ("a", "c1", "c2"):
-        return False
-    for x in (t["u"], t["v"]):
-        if x is None:
-            continue
-        c = _g(canonicalize_url, x, quoted=False)
-        if isinstance(c, str) and c != c.strip():
-            return True
-    return False
-
-
 def kf_quoted_raw_delim(case, failure):
-    """KF-C03-8 (the KF-C02-1 family seen from C03): in quoted mode a raw '=' in a query value
+    """KF-C03-4 (the KF-C02-1 family seen from C03): in quoted mode a raw '=' in a query value
     (':' / '@' in the userinfo) is escaped by canonicalize_url(quoted=True) and stays escaped,
     so normalize_url sorts '%3D' where it sorted '='."""
     from urllib.parse import urlsplit
@@ -587,8 +494,7 @@ def kf_quoted_raw_delim(case, failure):
     return False
 
 
-KF_PREDICATES = [kf_redirect_hint, kf_platform_aware, kf_mistake_escaped, kf_domain_punycode, kf_escaped_upper,
-                 kf_index_case, kf_unicode_space, kf_quoted_raw_delim]
+KF_PREDICATES = [kf_redirect_hint, kf_platform_aware, kf_index_case, kf_quoted_raw_delim]
 
 
 # ---------------------------------------------------------------------------------------
@@ -646,7 +552,7 @@ def _pairs(case):
         if not q and p is not None and p_re is not None and pr["resolved"] == u and pr_re["resolved"] == c:
             out.append((
                 {"f": "c03_bridge", "parsed0": p0, "parsed": p, "reparsed": p_re, "puny": nc.puny_table(p0["hostname"])},
-                [_same_up_to_scheme(p, p0), _reparses_real(u, p_re, q), domain_stable(p["hostname"]), mistake_stable(p["query"])],
+                [_same_up_to_scheme(p, p0), _reparses_real(u, p_re, q)],
             ))
         if nc.in_model_alphabet(u) and p is not None and pr["resolved"] == u:
             pl, prl = _norm_parse(u.lower(), False)
